@@ -3,6 +3,7 @@ import os
 import sys
 import json
 import random
+import zlib
 
 sys.path.insert(0, os.path.dirname(os.path.abspath(__file__)))
 
@@ -123,6 +124,10 @@ def exprmat_events(prefix, u, seed, n):
             like = MultiVector.fromkeysvalues(alg, lk, [1] * len(lk))
         raised = ''
         try:
+            # the expression as a plain function, or compiled by alg.register (its result then bypasses the algebra's simp_func)
+            registered = zlib.crc32(eid.encode()) % 3 == 0
+            if registered:
+                fn = alg.register(fn)
             A, y = expr_as_matrix(fn, R, x, res_like=like) if like is not None else expr_as_matrix(fn, R, x)
         except Exception as e:   # noqa: BLE001
             raised = type(e).__name__
